@@ -398,6 +398,7 @@ pub mod eval {
             dag: *const CDagNode,
             type_dag: *mut CType,
             len: c_size_t,
+            min_cost: ubounded,
             budget: *const ubounded,
             env: *const elements::CTxEnv,
         ) -> SimplicityErr;
@@ -444,6 +445,7 @@ pub mod eval {
             dag,
             type_dag,
             len,
+            0, // minCost: no lower bound on the cost
             budget,
             env,
         )
